@@ -20,7 +20,7 @@ from itertools import count
 from math import inf, isnan, ulp
 from opcode import opname
 from types import BuiltinFunctionType, BuiltinMethodType, CodeType, MethodType, TracebackType
-from typing import TYPE_CHECKING, Concatenate, ParamSpec
+from typing import TYPE_CHECKING, Any, Concatenate, ParamSpec
 
 from bytecode.instr import CellVar, FreeVar
 
@@ -1150,7 +1150,7 @@ def _in(val1, val2) -> float:
         return inf
 
     # Use the shortest distance to any element of the iterable.
-    return min([_eq(val1, v) for v in val2] + [inf])
+    return _guarded(lambda elem, elems: min([_eq(elem, v) for v in elems] + [inf]), val1, val2)
 
 
 def _nin(val1, val2) -> float:
@@ -1200,6 +1200,27 @@ def _isn(val1, val2) -> float:
     if val1 is not val2:
         return 0.0
     return 1.0
+
+
+def _guarded(distance: Callable[[Any, Any], float], val1, val2) -> float:
+    """Compute the distance of an operation that the SUT itself does not execute.
+
+    The complement of the executed comparison is only evaluated to obtain a magnitude;
+    when it is not supported or raises (e.g., user-defined operators), this must not
+    leak into the SUT.
+
+    Args:
+        distance: the distance function
+        val1: the first value
+        val2: the second value
+
+    Returns:
+        The distance, or inf if it cannot be computed
+    """
+    try:
+        return distance(val1, val2)
+    except Exception:  # noqa: BLE001
+        return inf
 
 
 def _complementary_distance(distance_true: float, distance_false: float) -> float:
@@ -1360,38 +1381,38 @@ class ExecutionTracer(AbstractExecutionTracer):  # noqa: PLR0904
 
             match cmp_op:
                 case PynguinCompare.EQ:
-                    distance_true, distance_false = _eq(value1, value2), _neq(value1, value2)
+                    distance_true, distance_false = _eq(value1, value2), _guarded(_neq, value1, value2)
                 case PynguinCompare.NE:
-                    distance_true, distance_false = _neq(value1, value2), _eq(value1, value2)
+                    distance_true, distance_false = _neq(value1, value2), _guarded(_eq, value1, value2)
                 case PynguinCompare.LT:
                     distance_true, distance_false = (
                         _lt(value1, value2),
-                        _le(value2, value1),
+                        _guarded(_le, value2, value1),
                     )
                 case PynguinCompare.LE:
                     distance_true, distance_false = (
                         _le(value1, value2),
-                        _lt(value2, value1),
+                        _guarded(_lt, value2, value1),
                     )
                 case PynguinCompare.GT:
                     distance_true, distance_false = (
                         _lt(value2, value1),
-                        _le(value1, value2),
+                        _guarded(_le, value1, value2),
                     )
                 case PynguinCompare.GE:
                     distance_true, distance_false = (
                         _le(value2, value1),
-                        _lt(value1, value2),
+                        _guarded(_lt, value1, value2),
                     )
                 case PynguinCompare.IN:
                     distance_true, distance_false = (
                         _in(value1, value2),
-                        _nin(value1, value2),
+                        _guarded(_nin, value1, value2),
                     )
                 case PynguinCompare.NOT_IN:
                     distance_true, distance_false = (
                         _nin(value1, value2),
-                        _in(value1, value2),
+                        _guarded(_in, value1, value2),
                     )
                 case PynguinCompare.IS:
                     distance_true, distance_false = (
@@ -1452,7 +1473,7 @@ class ExecutionTracer(AbstractExecutionTracer):  # noqa: PLR0904
         with self.temporarily_disable():
             value1 = tt.unwrap(value1)
             value2 = tt.unwrap(value2)
-            distance_true, distance_false = _in(value1, value2), _nin(value1, value2)
+            distance_true, distance_false = _in(value1, value2), _guarded(_nin, value1, value2)
             distance_false = _complementary_distance(distance_true, distance_false)
             self._update_metrics(distance_false, distance_true, predicate)
 
